@@ -2472,7 +2472,7 @@ class EffNet:
         self.kind, self.contracted = kind, contracted
 
 
-TAG_OF = {"ham": "_HAM", "norm": "_EYE"}
+TAG_OF = {"ham": "_HAM", "norm": "_EYE", "ham2": "_HAM", "ovlp": "_EYE"}
 
 
 class LocalContract(DMRGContract):
@@ -2692,7 +2692,7 @@ class FormLocalOpsX(LocalContract):
     """DMRGX.form_local_ops: dense Heff with ROWS = lix, COLUMNS = uix"""
 
     target = f"{DMRGF}::DMRGX.form_local_ops"
-    floor = 3
+    floor = 2
 
     def mk_inputs(self, cx, case):
         return FormLocalOps.mk_inputs(self, cx, NS(dense=True, ndense=None))
@@ -2904,7 +2904,7 @@ class UpdateLocal2(LocalContract):
             # the factor's axes (labels of the split tensor + the new bond) match the labels position by position
             kept = dat.axes[0] if fac == "splitL" else dat.axes[1]
             own = first if fac == "splitL" else second
-            d[f"{tag}-axes-correspond-to-the-labels"] = And(
+            d[f"{tag}-axes-correspond-to-the-labels"] = False if not isinstance(kept, IndsV) else And(
                 atoms_eq(twin(kept, k, net), own),
                 (dat.axes[1] == ("newbond",)) if fac == "splitL" else (dat.axes[0] == ("newbond",)))
         return d
